@@ -9,13 +9,54 @@ is are fixed here by hand, so a code change can alter rows but never the yardsti
 namespace Spine.Tables
 open Spine
 
-/-- how `FilterData.SelectorMatch` treats one field of a selectors struct -/
-inductive SelKind
-  | ignored   -- not a pointer field, or the item has no field of that name: the code skips it
-  | eq        -- same pointer-to-scalar type as the item field: compared by value
-  | never     -- pointer field of another type, or a comparable struct holding pointers: never equal
-  | panics    -- the item field is not a pointer, or the struct type is not comparable: the comparison panics
+/-- what a field of a selectors struct is, by the TYPES of the selector field and of the item field of the same
+    name (a fact of the data model; it does not depend on how `FilterData.SelectorMatch` is written) -/
+inductive SelType
+  | ignored    -- the selector field is not a pointer, or the item has no field of that name: the code skips it
+  | scalar     -- same pointer-to-scalar type as the item field
+  | othertype  -- the item field is a pointer of another type
+  | nonptr     -- the item field is not a pointer (a slice)
+  | struct     -- same pointer-to-struct type, comparable with `==` (holds pointers, so `==` compares identities)
+  | structnc   -- same pointer-to-struct type, not comparable with `==` (holds a slice)
 deriving DecidableEq, Repr, Inhabited
+
+/-- how `SelectorMatch` of the tree under test behaves; probed by the harness on the real code -/
+structure SelFacts where
+  nilPanics : Bool    -- the selected item field is nil or not a pointer: panic (true) / no match (false)
+  structDeep : Bool   -- struct-typed values are compared deeply (true: `reflect.DeepEqual`) / with `!=` (false)
+deriving DecidableEq, Repr, Inhabited
+
+/-- the code as written at the pinned commit -/
+def SelFacts.asWritten : SelFacts := ⟨true, false⟩
+
+/-- the entry of the engine model's `selMap` for one selector field (`idx` = item field of the same name):
+    * `none`          the field takes no part;
+    * `some i`, i < n the item field `i` is compared with the selector's value (fields that can never be equal —
+                      other type; comparable struct under `!=` — are compared too: the harness gives their
+                      selector values a number no item value has);
+    * `some n`        out of range on purpose, "the item never carries it": panic resp. no match, by `nilPanics`;
+    * `some (n+1+i)`  non-comparable struct under `!=` behind a nil check: no match when absent, panic when present
+                      (`Spine.selectorMatchR`). -/
+def selEntryFor (f : SelFacts) (n : Nat) (idx : Option Nat) (ty : SelType) : Option Nat :=
+  match ty, idx with
+  | .ignored, _ => none
+  | _, none => none
+  | .scalar, some i => some i
+  | .othertype, some i => some i
+  | .nonptr, some _ => some n
+  | .struct, some i => some i
+  | .structnc, some i => if f.structDeep then some i else if f.nilPanics then some n else some (n + 1 + i)
+
+def selMapFor (f : SelFacts) (n : Nat) : List (Option Nat) → List SelType → List (Option Nat)
+  | i :: is, t :: ts => selEntryFor f n i t :: selMapFor f n is ts
+  | _, _ => []
+
+/-- can a value of the selector field equal a value of the item field on this tree -/
+def selCanMatch (f : SelFacts) : SelType → Bool
+  | .scalar => true
+  | .struct => f.structDeep
+  | .structnc => f.structDeep
+  | _ => false
 
 /-- G3: one list type that implements `model.Updater` -/
 structure ListType where
@@ -24,9 +65,10 @@ structure ListType where
   listField : String       -- the slice field of the list struct
   scalar : Bool            -- items are not structs (no fields for the engine to look at)
   registered : Bool        -- the function factory creates a store for it
-  shape : Shape            -- what the engine sees of the item type
+  shape : Shape            -- what the engine sees of the item type; `selMap` here is the NAME map (selector field →
+                           -- item field of the same name); the model's `selMap` is `selMapFor facts …` (`shapeFor`)
   hasSel : Bool            -- model.FilterType has a selectors field for the function
-  selKinds : List SelKind  -- per field of the selectors struct
+  selTypes : List SelType  -- per field of the selectors struct
   hasEl : Bool             -- model.FilterType has an elements field for the function
 deriving Repr, Inhabited
 
@@ -56,18 +98,21 @@ def structKeyLast : List (Nat × KeyKind) → Bool
   | [_] => true
   | (_, k) :: rest => k != .struct && structKeyLast rest
 
-def selEntryOK (n : Nat) (m : Option Nat) (k : SelKind) : Bool :=
+/-- a selector field that takes part names an item field -/
+def selEntryOK (n : Nat) (m : Option Nat) (k : SelType) : Bool :=
   match k, m with
-  | .ignored, none => true
-  | .eq, some i => i < n
-  | .never, some i => i < n
-  | .panics, some i => i == n      -- out of range on purpose: the model then predicts the panic
-  | _, _ => false
+  | .ignored, _ => true
+  | _, some i => i < n
+  | _, none => false
 
-def selOK (n : Nat) : List (Option Nat) → List SelKind → Bool
+def selOK (n : Nat) : List (Option Nat) → List SelType → Bool
   | [], [] => true
   | m :: ms, k :: ks => selEntryOK n m k && selOK n ms ks
   | _, _ => false
+
+/-- the shape the engine model runs with on a tree whose `SelectorMatch` behaves as `f` says -/
+def shapeFor (f : SelFacts) (t : ListType) : Shape :=
+  { t.shape with selMap := selMapFor f t.shape.n t.shape.selMap t.selTypes }
 
 /-- the row is a shape the engine theorems apply to:
     identifier fields exist and are distinct; a struct key comes last (so `hashKey` is injective on complete
@@ -80,7 +125,7 @@ def shapeOK (t : ListType) : Bool :=
    (match t.shape.flag with
     | none => true
     | some f => f < t.shape.n && !(keyIdx t.shape).contains f) &&
-   (if t.hasSel then selOK t.shape.n t.shape.selMap t.selKinds else t.shape.selMap.isEmpty && t.selKinds.isEmpty) &&
+   (if t.hasSel then selOK t.shape.n t.shape.selMap t.selTypes else t.shape.selMap.isEmpty && t.selTypes.isEmpty) &&
    (if t.hasEl then t.shape.elN == t.shape.n && t.shape.elMap == (List.range t.shape.n).map some
     else t.shape.elN == 0 && t.shape.elMap.isEmpty))
 
